@@ -327,3 +327,12 @@ func TestC20Chain(t *testing.T) {
 		idx++
 	}
 }
+
+// stQuiesce ends a client-link-server scenario inside its bubble.
+func stQuiesce(l *Link, ret chan error) {
+	synctest.Wait()
+	l.C.FailRead(io.EOF)
+	l.S.FailRead(io.EOF)
+	synctest.Wait()
+	<-ret
+}
